@@ -573,6 +573,21 @@ def rule_gcskel(ctx, rep, rid):
     rem = [(t.blk.id, s_) for t, s_, a in pat.branch_edges_on(g, lambda a: a[0] == "ne" and a[2] == ("c", 0) and a[1][0] == "bin" and a[1][1] == "and" and a[1][3] == ("c", B.REMOVED) and a[1][2][0] == "load")]
     pat.require(rem, "gc_bucket: REMOVED test")
     rep.must_take_edge(rid, "gc.unlink-only-removed", g, [g.entry()], [cx[0].inst], rem, include_start=True, what="the unlink is attempted only after a successor word with REMOVED was loaded")
+    # what the unlink writes: the successor, carrying BUCKET exactly when the word it replaces did
+    gnew = ir.expr(g, cx[0].new, 8)
+    gexp = ir.expr(g, cx[0].exp, 4)
+    okg = _sel_flag(gnew, B, lambda b: b[0] == "bin" and b[1] == "and" and b[3] == ("c", -8) and b[2][0] == "load") and gnew[1][2][2] == gexp
+    if okg:
+        rep.ok(rid, "gc.unlink-keeps-BUCKET", "gc unlink: predecessor->next := clear(next) | (BUCKET iff the replaced word had it)", [cx[0].inst.where()])
+    elif gnew[0] == "select" and gnew[1][0] == "icmp" and gnew[1][2][0] == "bin" and gnew[1][2][1] == "and" and gnew[1][2][3] == ("c", B.BUCKET) and gnew[1][3] == ("c", 0) and (
+            (gnew[1][1] == "eq" and gnew[2][0] == "bin" and gnew[2][1] == "or" and gnew[2][3] == ("c", B.BUCKET)) or
+            (gnew[1][1] == "ne" and gnew[3][0] == "bin" and gnew[3][1] == "or" and gnew[3][3] == ("c", B.BUCKET))):
+        rep.bad(rid, "gc.unlink-keeps-BUCKET", "gc unlink sets the BUCKET flag exactly when the replaced word did *not* carry it: chain words lose / gain the bucket marker, "
+                "traversals take user nodes for bucket nodes (and skip them) or the reverse", [cx[0].inst.where()])
+    elif gnew[0] == "bin" and gnew[1] in ("and", "or"):
+        rep.bad(rid, "gc.unlink-keeps-BUCKET", "gc unlink installs %s whatever flag the replaced word carried" % ir.expr_str(gnew), [cx[0].inst.where()])
+    else:
+        raise Broken("_cds_lfht_gc_bucket: new value of the unlink cmpxchg has an unrecognised shape: %s" % ir.expr_str(gnew))
     # predecessor: phi over {bucket (restart), clear(iter) (advance)}
     base = cx[0].ap["base"]
     pat.require(base[0] == "i" and g.insts[base[1]].op == "phi", "gc_bucket: predecessor is not a loop variable")
